@@ -197,9 +197,65 @@ pub(crate) struct BlockOp {
 }
 
 #[derive(Serialize, Deserialize, Clone, Debug, PartialEq, Eq)]
+pub(crate) enum RecvDenom {
+    /// an asset of the counterparty chain (minted here as `transfer/<our channel>/<base>`)
+    Foreign(u8),
+    /// one of this chain's assets coming back: `transfer/<counterparty channel>/<asset>`
+    Returning(u8),
+    /// the same, but naming a channel other than the one it arrives over
+    ReturningWrongChannel(u8),
+    Garbage,
+}
+
+#[derive(Serialize, Deserialize, Clone, Debug, PartialEq, Eq)]
+pub(crate) enum RecvAmt {
+    Abs(u128),
+    /// per-mille of what is escrowed for that asset on that channel
+    EscrowPerMille(u16),
+    /// escrow + k: the counterparty over-returns
+    EscrowPlus(u8),
+    Max,
+    NotANumber,
+}
+
+#[derive(Serialize, Deserialize, Clone, Debug, PartialEq, Eq)]
+pub(crate) enum RecvTo {
+    Account(u8),
+    /// the ibc-compat (bech32) rendering of the account address
+    Compat(u8),
+    Garbage,
+}
+
+#[derive(Serialize, Deserialize, Clone, Debug, PartialEq, Eq)]
+pub(crate) enum MemoKind {
+    Empty,
+    Deposit(u16),
+    BadJson,
+}
+
+#[derive(Serialize, Deserialize, Clone, Debug, PartialEq, Eq)]
+pub(crate) enum IbcKind {
+    Recv { channel: u8, denom: RecvDenom, amt: RecvAmt, to: RecvTo, memo: MemoKind, seq: u8, expired: bool },
+    /// acknowledge the `of`-th packet this chain has sent (modulo the number sent so far)
+    Ack { of: u8, success: bool },
+    Timeout { of: u8 },
+}
+
+#[derive(Serialize, Deserialize, Clone, Debug, PartialEq, Eq)]
+pub(crate) struct IbcOp {
+    pub(crate) id: u32,
+    /// the relaying account (succeeds only while it is in the relayer set)
+    pub(crate) relayer: u8,
+    pub(crate) nonce: NonceSel,
+    pub(crate) kind: IbcKind,
+    pub(crate) nodes: u8,
+}
+
+#[derive(Serialize, Deserialize, Clone, Debug, PartialEq, Eq)]
 pub(crate) enum Op {
     Tx(TxOp),
     Block(BlockOp),
+    Ibc(IbcOp),
 }
 
 // ------------------------------------------------------------------------------------------------
@@ -246,6 +302,7 @@ fn weights(profile: &str) -> Weights {
         "proposal" => Weights { rollup: 40, big_rollup: 25, bundle: 20, ..base },
         "validators" => Weights { validator: 45, sudo: 6, ..base },
         "oracle" => Weights { pairs: 14, validator: 12, ..base },
+        "ibc" => Weights { ics20: 40, bridge: 30, transfer: 10, rollup: 4, fee: 10, sudo: 6, ..base },
         _ => base,
     }
 }
@@ -444,6 +501,50 @@ fn gen_tx(rng: &mut Rng, w: &Weights, cfg: &Config, id: u32, prev_tx_ids: &[u32]
     }
 }
 
+fn gen_ibc(rng: &mut Rng, cfg: &Config, id: u32) -> IbcOp {
+    let na = u64::from(cfg.n_accounts);
+    let relayer = if !cfg.relayers.is_empty() && rng.chance(9, 10) { *rng.pick(&cfg.relayers) } else { rng.below(na) as u8 };
+    let kind = match rng.weighted(&[55, 25, 20]) {
+        0 => IbcKind::Recv {
+            channel: rng.below(2) as u8,
+            denom: match rng.weighted(&[30, 50, 10, 10]) {
+                0 => RecvDenom::Foreign(rng.below(2) as u8),
+                1 => RecvDenom::Returning(rng.below(u64::from(N_ASSETS)) as u8),
+                2 => RecvDenom::ReturningWrongChannel(rng.below(u64::from(N_ASSETS)) as u8),
+                _ => RecvDenom::Garbage,
+            },
+            amt: match rng.weighted(&[30, 35, 15, 10, 10]) {
+                0 => RecvAmt::Abs(rng.range(0, 100_000) as u128),
+                1 => RecvAmt::EscrowPerMille(rng.range(1, 1000) as u16),
+                2 => RecvAmt::EscrowPlus(rng.range(1, 3) as u8),
+                3 => RecvAmt::Max,
+                _ => RecvAmt::NotANumber,
+            },
+            to: match rng.weighted(&[80, 10, 10]) {
+                0 => RecvTo::Account(rng.below(na + 1) as u8),
+                1 => RecvTo::Compat(rng.below(na) as u8),
+                _ => RecvTo::Garbage,
+            },
+            memo: match rng.weighted(&[40, 45, 15]) {
+                0 => MemoKind::Empty,
+                1 => MemoKind::Deposit(*rng.pick(&[0u16, 1, 20, 256, 257])),
+                _ => MemoKind::BadJson,
+            },
+            seq: rng.below(12) as u8,
+            expired: rng.chance(1, 15),
+        },
+        1 => IbcKind::Ack { of: rng.below(16) as u8, success: rng.chance(1, 2) },
+        _ => IbcKind::Timeout { of: rng.below(16) as u8 },
+    };
+    IbcOp {
+        id,
+        relayer,
+        nonce: NonceSel::Next,
+        kind,
+        nodes: 0xff,
+    }
+}
+
 fn gen_votes(rng: &mut Rng, cfg: &Config, profile: &str) -> Vec<VoteOp> {
     let mut votes = Vec::new();
     let honest_bias: u32 = if profile == "oracle" { 55 } else { 80 };
@@ -524,7 +625,8 @@ pub(crate) fn generate(profile: &str, tier: &str, seed: u64) -> Scenario {
     let thorough = tier == "thorough";
     let n_nodes = rng.range(2, 4) as u8;
     let n_accounts = rng.range(4, 8) as u8;
-    let extreme = rng.chance(1, 12);
+    // total supply reaches 2^128 only in the `extreme` profile
+    let extreme = profile == "extreme";
     let mut balances = Vec::new();
     for _ in 0..n_accounts {
         balances.push(match rng.weighted(&[10, 50, 30, if extreme { 30 } else { 2 }]) {
@@ -532,7 +634,7 @@ pub(crate) fn generate(profile: &str, tier: &str, seed: u64) -> Scenario {
             1 => rng.range(1_000_000, 1_000_000_000) as u128,
             2 => rng.range_u128(1u128 << 64, 1u128 << 100),
             _ => {
-                if extreme { u128::MAX - rng.range(0, 1000) as u128 } else { 1u128 << 125 }
+                if extreme { u128::MAX - rng.range(0, 1000) as u128 } else { 1u128 << 120 }
             }
         });
     }
@@ -546,7 +648,7 @@ pub(crate) fn generate(profile: &str, tier: &str, seed: u64) -> Scenario {
     }
     let sudo = rng.below(u64::from(n_accounts)) as u8;
     let ibc_sudo = rng.below(u64::from(n_accounts)) as u8;
-    let relayers = (0..rng.range(0, 2)).map(|_| rng.below(u64::from(n_accounts)) as u8).collect();
+    let relayers: Vec<u8> = (0..rng.range(if profile == "ibc" { 1 } else { 0 }, 2)).map(|_| rng.below(u64::from(n_accounts)) as u8).collect();
     let mut fee_assets = vec![0u8];
     if rng.chance(1, 2) {
         fee_assets.push(rng.range(1, u64::from(N_ASSETS) - 1) as u8);
@@ -624,6 +726,12 @@ pub(crate) fn generate(profile: &str, tier: &str, seed: u64) -> Scenario {
                 tx_ids.push(id);
             }
             ops.push(Op::Tx(tx));
+        }
+        let n_ibc = if profile == "ibc" { rng.weighted(&[20, 40, 25, 15]) } else if rng.chance(1, 10) { 1 } else { 0 };
+        for _ in 0..n_ibc {
+            let id = next_id;
+            next_id += 1;
+            ops.push(Op::Ibc(gen_ibc(&mut rng, &cfg, id)));
         }
         let id = next_id;
         next_id += 1;
@@ -745,6 +853,7 @@ pub(crate) fn simplify(sc: &Scenario) -> Vec<Scenario> {
                     out.push(s);
                 }
             }
+            Op::Ibc(_) => {}
             Op::Tx(t) => {
                 if t.actions.len() > 1 {
                     for k in 0..t.actions.len() {
@@ -786,6 +895,11 @@ pub(crate) fn summarize(sc: &Scenario) -> serde_json::Value {
                 if t.replay_of.is_some() {
                     *kinds.entry("Replay".into()).or_default() += 1;
                 }
+            }
+            Op::Ibc(i) => {
+                let dbg = format!("{:?}", i.kind);
+                let name = format!("Ibc{}", dbg.split([' ', '{', '(']).next().unwrap_or("?"));
+                *kinds.entry(name).or_default() += 1;
             }
             Op::Block(b) => {
                 blocks += 1;
